@@ -291,13 +291,17 @@ func runC17(tier string) int {
 	rec(nil)
 	nEnumerated := len(files)
 	// size ladder
-	for _, n := range []int{1, 2047, 2048, 2049, 5000} {
+	for _, n := range []int{1, 2047, 2048, 2049, 5000, 20000, 100000} {
 		var b bytes.Buffer
 		for i := 0; i < n; i++ {
 			b.WriteString(synthWord(i))
 			b.WriteByte('\n')
 		}
 		files = append(files, b.Bytes())
+	}
+	// few but very long words (buffer / scanner / reader limits: 4 KiB, 64 KiB, 1 MiB)
+	for _, wl := range []int{4095, 4097, 65535, 65537, 1<<20 + 1} {
+		files = append(files, []byte(strings.Repeat("a", wl)+"\n"+strings.Repeat("\u00e9", wl/2)+"\nz"))
 	}
 	// batches of ten pairwise different files; rotation decides which target gets which file
 	type batch struct {
@@ -371,7 +375,7 @@ func runC17(tier string) int {
 			if len(r.Violations) < 40 {
 				cs := map[string]interface{}{"kind": "generator", "bodies": map[string]string{}}
 				for k, v := range b.bodies {
-					if len(v) < 4096 {
+					if len(v) < 2048 {
 						cs["bodies"].(map[string]string)[k] = fmt.Sprintf("%x", v)
 					} else {
 						cs["bodies"].(map[string]string)[k] = "omitted:" + b.desc
@@ -412,7 +416,7 @@ func runC17(tier string) int {
 		os.RemoveAll(dir)
 	}
 	r.Distinct = int64(len(distinctLists))
-	r.Rule = fmt.Sprintf("the real update-wordlist binary (built from the current tree with -tags verif) is run with its HTTP fetches redirected to a loopback server owned by the check; enumerated inputs: every file of <=%d lines over the line alphabet %+q (blank line, ASCII, precomposed and decomposed accents, Han, kana, conjoining jamo), with and without trailing LF, ten pairwise different files per tool run assigned to the ten targets by rotation (thorough: every file to every target), plus the size ladder 1/2047/2048/2049/5000 lines and the ten canonical lists (with and without trailing LF). Oracle: tool exits 0, each of the ten expected URLs requested exactly once, each generated file parses, declares package wordlist and exactly the expected variable as a []string literal equal to the non-empty input lines byte for byte in order; canonical run reproduces the committed lists and compiles with go build. distinct_nontrivial = distinct input files", maxLines, lineAlphabet)
+	r.Rule = fmt.Sprintf("the real update-wordlist binary (built from the current tree with -tags verif) is run with its HTTP fetches redirected to a loopback server owned by the check; enumerated inputs: every file of <=%d lines over the line alphabet %+q (blank line, ASCII, precomposed and decomposed accents, Han, kana, conjoining jamo), with and without trailing LF, ten pairwise different files per tool run assigned to the ten targets by rotation (thorough: every file to every target), plus the size ladder 1/2047/2048/2049/5000/20000/100000 lines, files with words of 4095...2^20+1 letters and the ten canonical lists (with and without trailing LF). Oracle: tool exits 0, each of the ten expected URLs requested exactly once, each generated file parses, declares package wordlist and exactly the expected variable as a []string literal equal to the non-empty input lines byte for byte in order; canonical run reproduces the committed lists and compiles with go build. distinct_nontrivial = distinct input files", maxLines, lineAlphabet)
 	r.Extra["enumerated_files"] = nEnumerated
 	r.Extra["tool_runs"] = len(batches) + 1
 	r.Samples = append(r.Samples, map[string]interface{}{"input": "a\n\n\u00e9\nbc", "expected_list": []string{"a", "\u00e9", "bc"}}, map[string]interface{}{"input": batches[len(batches)/2].desc})
